@@ -713,6 +713,39 @@ def type_of_value(v):
     raise Unsupported(f"no type descriptor for {v!r}")
 
 
+
+def set_keys_filter(interp, cx, fr, e):
+    """Schema for `{k for k, v in MAP.items() if P(k, v)}` over a symbolic dict: exactly the keys of MAP satisfying P."""
+    from .containers import MapItems, SSet
+
+    if not isinstance(e, ast.SetComp) or len(e.generators) != 1:
+        return NotImplemented
+    g = e.generators[0]
+    src = interp.eval(cx, fr, g.iter)
+    if not isinstance(src, MapItems):
+        return NotImplemented
+    if not (isinstance(g.target, ast.Tuple) and len(g.target.elts) == 2 and all(isinstance(x, ast.Name) for x in g.target.elts)):
+        raise ContractStale("set filter schema: target shape")
+    kn, vn = g.target.elts[0].id, g.target.elts[1].id
+    if not (isinstance(e.elt, ast.Name) and e.elt.id == kn):
+        raise ContractStale("set filter schema: the element expression is not the key variable")
+    m = src.m
+    snap = m.snapshot()
+    kk = z3.Const(fresh_name("sk"), m.kt.sort())
+    sub_fr = Frame(fr.modinfo, fr.qual, Env(fr.env), spec=fr.spec, cls=fr.cls)
+    sub_fr.env.set(kn, m.kt.wrap(kk))
+    sub_fr.env.set(vn, m.vt.wrap(snap.get_term(kk)))
+    vals, fails, axioms = interp.eval_exprs_on_element(cx, sub_fr, None, None, g.ifs, kk)
+    P = z3.And(*[as_bool(cx, V.truth(cx, v)) for v in vals]) if vals else z3.BoolVal(True)
+    for exc, fc in fails:
+        cx.oblige(f"comprehension-element-total:{exc}", "no-exception", z3.ForAll([kk], z3.Implies(snap.has(kk), z3.Not(fc))), clause="the filter condition is defined for every entry")
+    for ax in axioms:
+        cx.assume(z3.ForAll([kk], z3.Implies(snap.has(kk), ax)))
+    res = SSet.fresh(m.kt, "filtered_keys")
+    cx.assume(z3.ForAll([kk], res.has(kk) == z3.And(snap.has(kk), P)))
+    return res
+
+
 def dict_items_filter(interp, cx, fr, e):
     """Schema for `{k: v for k, v in [sorted](MAP.items()[, key=...]) if P(k, v)}` over a symbolic dict:
     the result maps exactly the keys of MAP satisfying P to their values (iteration order is not modelled)."""
